@@ -136,6 +136,44 @@ structure MapOK (p : Pool) : Prop where
         ∃ v, r.mapSem.value = .fin v ∧ v + heldM p.tasks m + grantsL r.mapSem.waiters + r.pend ≤ r.nc
   acq : ∀ (m : Nat) (r : Req), p.reqs[m]? = some r → r.AcqOK
 
+/-! ### what `flush` waits for -/
+
+def _root_.Taskpool.ApiKind.isGac : ApiKind → Bool
+  | .gac _ => true
+  | _ => false
+
+/-- task `t` exists and has finished -/
+def TaskFin (p : Pool) (t : Nat) : Prop := ∃ tk : PTask, p.tasks[t]? = some tk ∧ tk.phase = .finished
+
+/-- a gather that has completed normally has seen all its child tasks finish, and a `flush` suspended in its second
+gather awaits (at least) every task of its cancelled-registry snapshot -/
+structure FlushOK (p : Pool) : Prop where
+  gth : ∀ (g : Nat) (G : Gather), p.gathers[g]? = some G → G.outer = some .ok →
+          ∀ t, Child.task t ∈ G.children → TaskFin p t
+  api : ∀ (a : Nat) (A : Api) (g : Nat), p.apis[a]? = some A → A.frame = .gather2 g → A.kind.isGac = false →
+          ∃ G : Gather, p.gathers[g]? = some G ∧ ∀ t ∈ A.snapC, Child.task t ∈ G.children
+
+/-- gathers and background calls untouched, finished tasks stay finished -/
+theorem FlushOK.frame {p q : Pool} (h : FlushOK p) (hg : q.gathers = p.gathers) (ha : q.apis = p.apis)
+    (ht : ∀ t, TaskFin p t → TaskFin q t) : FlushOK q :=
+  ⟨fun g G a b t c => by rw [hg] at a; exact ht t (h.gth g G a b t c),
+   fun a A g x y z => by rw [ha] at x; rw [hg]; exact h.api a A g x y z⟩
+
+theorem taskFin_of_soft {p q : Pool} (hl : q.tasks.length = p.tasks.length)
+    (hs : ∀ (t : Nat) (tk' : PTask), q.tasks[t]? = some tk' → ∃ tk : PTask, p.tasks[t]? = some tk ∧ tk'.soft = tk.soft) :
+    ∀ t, TaskFin p t → TaskFin q t := by
+  intro t ⟨tk, a, b⟩
+  have hlt : t < q.tasks.length := by rw [hl]; exact (List.getElem?_eq_some_iff.mp a).1
+  obtain ⟨tk0, a0, e⟩ := hs t q.tasks[t] (by simp [hlt])
+  rw [a] at a0; cases a0
+  exact ⟨q.tasks[t], by simp [hlt], by rw [show q.tasks[t].phase = tk.phase from congrArg SoftP.phase e]; exact b⟩
+
+/-- tasks keep their soft profiles, gathers and background calls untouched -/
+theorem FlushOK.of_soft {p q : Pool} (h : FlushOK p) (hg : q.gathers = p.gathers) (ha : q.apis = p.apis)
+    (hl : q.tasks.length = p.tasks.length)
+    (hs : ∀ (t : Nat) (tk' : PTask), q.tasks[t]? = some tk' → ∃ tk : PTask, p.tasks[t]? = some tk ∧ tk'.soft = tk.soft) :
+    FlushOK q := h.frame hg ha (taskFin_of_soft hl hs)
+
 /-- everything but the books of the map semaphores -/
 structure Good0 (cap : Cap) (L : Bool) (p : Pool) : Prop where
   slot : SlotOK cap p
@@ -143,9 +181,10 @@ structure Good0 (cap : Cap) (L : Bool) (p : Pool) : Prop where
   reg : RegOK p
   grp : GroupsOK p
   life : LifeOK p
-  /-- the strict variant (`L = false`): no task has been lost and no flush / gather_and_close / until_closed call was ever made -/
+  fl : FlushOK p
+  /-- the strict variant (`L = false`): no task has been lost and no `gather_and_close` call was ever made -/
   ll : L = false → p.lost = false
-  al : L = false → p.apis = []
+  al : L = false → ∀ A ∈ p.apis, A.kind.isGac = false
 
 structure Good (cap : Cap) (L : Bool) (p : Pool) : Prop extends Good0 cap L p where
   map : MapOK p
@@ -162,7 +201,8 @@ structure Tame0 (p q : Pool) : Prop where
   wnil : p.sem.waiters = [] → q.sem.waiters = []
   gfl : (flat q.groups).Sublist (flat p.groups)
   soft : ∀ (t : Nat) (tk' : PTask), q.tasks[t]? = some tk' → ∃ tk : PTask, p.tasks[t]? = some tk ∧ tk'.soft = tk.soft
-  apl : q.apis.length = p.apis.length
+  apk : q.apis.map (·.kind) = p.apis.map (·.kind)
+  fok : FlushOK p → FlushOK q
 
 /-- … and that moves no slot of a map semaphore either -/
 structure Tame (p q : Pool) : Prop extends Tame0 p q where
@@ -232,7 +272,7 @@ theorem getElem?_modify_some {α} (l : List α) (t i : Nat) (f : α → α) (y :
 /-! ### Tame: algebra -/
 
 theorem Tame0.refl (p : Pool) : Tame0 p p :=
-  ⟨rfl, rfl, rfl, rfl, rfl, rfl, rfl, fun h => h, List.Sublist.refl _, fun _ tk' h => ⟨tk', h, rfl⟩, rfl⟩
+  ⟨rfl, rfl, rfl, rfl, rfl, rfl, rfl, fun h => h, List.Sublist.refl _, fun _ tk' h => ⟨tk', h, rfl⟩, rfl, fun h => h⟩
 
 theorem Tame.refl (p : Pool) : Tame p p :=
   ⟨Tame0.refl p, Nat.le_refl _, fun _ r' h => Or.inl ⟨r', h, MSigLe.refl r'⟩⟩
@@ -240,7 +280,7 @@ theorem Tame.refl (p : Pool) : Tame p p :=
 theorem Tame0.trans {p q r : Pool} (h1 : Tame0 p q) (h2 : Tame0 q r) : Tame0 p r := by
   refine ⟨h2.val.trans h1.val, h2.grants.trans h1.grants, h2.len.trans h1.len, h2.run.trans h1.run,
     h2.can.trans h1.can, h2.fin.trans h1.fin, h2.lost.trans h1.lost, fun h => h2.wnil (h1.wnil h), h2.gfl.trans h1.gfl, ?_,
-    h2.apl.trans h1.apl⟩
+    h2.apk.trans h1.apk, fun h => h2.fok (h1.fok h)⟩
   intro t tk'' h
   obtain ⟨tk', hq, e2⟩ := h2.soft t tk'' h
   obtain ⟨tk, hp, e1⟩ := h1.soft t tk' hq
@@ -398,7 +438,8 @@ theorem Tame.map {p q : Pool} (h : Tame p q) (hm : MapOK p) : MapOK q := by
     · exact ha
 
 /-- the two extra clauses of the strict variant, as a bundle -/
-def Strict (L : Bool) (p : Pool) : Prop := (L = false → p.lost = false) ∧ (L = false → p.apis = [])
+def Strict (L : Bool) (p : Pool) : Prop :=
+  (L = false → p.lost = false) ∧ (L = false → ∀ A ∈ p.apis, A.kind.isGac = false)
 
 theorem Good0.strict {cap : Cap} {L : Bool} {p : Pool} (hg : Good0 cap L p) : Strict L p := ⟨hg.ll, hg.al⟩
 theorem Good.strict {cap : Cap} {L : Bool} {p : Pool} (hg : Good cap L p) : Strict L p := ⟨hg.ll, hg.al⟩
@@ -407,9 +448,13 @@ theorem Strict.of_eq {L : Bool} {p q : Pool} (h : Strict L p) (h1 : q.lost = p.l
   ⟨fun hl => by rw [h1]; exact h.1 hl, fun hl => by rw [h2]; exact h.2 hl⟩
 
 theorem Tame0.good0 {cap : Cap} {L : Bool} {p q : Pool} (h : Tame0 p q) (hg : Good0 cap L p) : Good0 cap L q :=
-  ⟨h.slot hg.slot, h.phase hg.phase, h.reg hg.reg, h.grp hg.grp, h.life hg.life,
+  ⟨h.slot hg.slot, h.phase hg.phase, h.reg hg.reg, h.grp hg.grp, h.life hg.life, h.fok hg.fl,
     fun hl => by rw [h.lost]; exact hg.ll hl,
-    fun hl => List.eq_nil_of_length_eq_zero (by rw [h.apl, hg.al hl]; rfl)⟩
+    fun hl A hA => by
+      have hk : A.kind ∈ q.apis.map (·.kind) := List.mem_map.mpr ⟨A, hA, rfl⟩
+      rw [h.apk] at hk
+      obtain ⟨B, hB, e⟩ := List.mem_map.mp hk
+      rw [← e]; exact hg.al hl B hB⟩
 
 theorem Tame.good {cap : Cap} {L : Bool} {p q : Pool} (h : Tame p q) (hg : Good cap L p) : Good cap L q :=
   ⟨h.toTame0.good0 hg.toGood0, h.map hg.map⟩
@@ -427,8 +472,9 @@ theorem tame_of_eq (p q : Pool) (hs : q.sem = p.sem) (ht : q.tasks = p.tasks)
     (h1 : q.running = p.running := by rfl) (h2 : q.cancelledR = p.cancelledR := by rfl)
     (h3 : q.ended = p.ended := by rfl) (h4 : q.lost = p.lost := by rfl)
     (h5 : (flat q.groups).Sublist (flat p.groups) := by exact List.Sublist.refl _)
-    (h6 : q.apis.length = p.apis.length := by rfl) (h7 : q.reqs = p.reqs := by rfl) : Tame p q := by
-  refine ⟨⟨by rw [hs], by rw [hs], by rw [ht], h1, h2, h3, h4, by rw [hs]; exact fun h => h, h5, ?_, h6⟩, by rw [h7]; exact Nat.le_refl _, ?_⟩
+    (h6 : q.apis = p.apis := by rfl) (h7 : q.reqs = p.reqs := by rfl) (h8 : q.gathers = p.gathers := by rfl) : Tame p q := by
+  refine ⟨⟨by rw [hs], by rw [hs], by rw [ht], h1, h2, h3, h4, by rw [hs]; exact fun h => h, h5, ?_, by rw [h6],
+    fun h => h.of_soft h8 h6 (by rw [ht]) (fun t tk' h => by rw [ht] at h; exact ⟨tk', h, rfl⟩)⟩, by rw [h7]; exact Nat.le_refl _, ?_⟩
   · intro t tk' h; rw [ht] at h; exact ⟨tk', h, rfl⟩
   · intro m r' h; rw [h7] at h; exact Or.inl ⟨r', h, MSigLe.refl r'⟩
 
@@ -438,8 +484,9 @@ theorem tame_of_map (p q : Pool) (f : Req → Req) (hs : q.sem = p.sem) (ht : q.
     (h1 : q.running = p.running := by rfl) (h2 : q.cancelledR = p.cancelledR := by rfl)
     (h3 : q.ended = p.ended := by rfl) (h4 : q.lost = p.lost := by rfl)
     (h5 : (flat q.groups).Sublist (flat p.groups) := by exact List.Sublist.refl _)
-    (h6 : q.apis.length = p.apis.length := by rfl) : Tame p q := by
-  refine ⟨⟨by rw [hs], by rw [hs], by rw [ht], h1, h2, h3, h4, by rw [hs]; exact fun h => h, h5, ?_, h6⟩, by rw [h7]; simp, ?_⟩
+    (h6 : q.apis = p.apis := by rfl) (h8 : q.gathers = p.gathers := by rfl) : Tame p q := by
+  refine ⟨⟨by rw [hs], by rw [hs], by rw [ht], h1, h2, h3, h4, by rw [hs]; exact fun h => h, h5, ?_, by rw [h6],
+    fun h => h.of_soft h8 h6 (by rw [ht]) (fun t tk' h => by rw [ht] at h; exact ⟨tk', h, rfl⟩)⟩, by rw [h7]; simp, ?_⟩
   · intro t tk' h; rw [ht] at h; exact ⟨tk', h, rfl⟩
   · intro m r' h
     rw [h7, List.getElem?_map] at h
@@ -469,14 +516,17 @@ namespace Pool
 /-- a task update that changes only soft fields -/
 theorem tame_modTask (p : Pool) (t : Nat) (f : PTask → PTask)
     (hs : ∀ x, (f x).soft = x.soft := by intro x; rfl) : Tame p (p.modTask t f) := by
-  refine ⟨⟨rfl, rfl, by simp [modTask], rfl, rfl, rfl, rfl, fun h => h, List.Sublist.refl _, ?_, rfl⟩, Nat.le_refl _,
+  have hsoft : ∀ (i : Nat) (tk' : PTask), (p.modTask t f).tasks[i]? = some tk' →
+      ∃ tk : PTask, p.tasks[i]? = some tk ∧ tk'.soft = tk.soft := by
+    intro i tk' h
+    obtain ⟨x, hx, rfl⟩ := getElem?_modify_some p.tasks t i f tk' h
+    refine ⟨x, hx, ?_⟩
+    split
+    · exact hs x
+    · rfl
+  refine ⟨⟨rfl, rfl, by simp [modTask], rfl, rfl, rfl, rfl, fun h => h, List.Sublist.refl _, hsoft, rfl,
+    fun h => h.of_soft rfl rfl (by simp [modTask]) hsoft⟩, Nat.le_refl _,
     fun _ r' h => Or.inl ⟨r', h, MSigLe.refl r'⟩⟩
-  intro i tk' h
-  obtain ⟨x, hx, rfl⟩ := getElem?_modify_some p.tasks t i f tk' h
-  refine ⟨x, hx, ?_⟩
-  split
-  · exact hs x
-  · rfl
 
 /-- any change confined to the requests (and the ready handles) is tame as far as pool slots, phases, registries,
 groups and callbacks are concerned -/
@@ -484,8 +534,9 @@ theorem tame0_of_eq (p q : Pool) (hs : q.sem = p.sem) (ht : q.tasks = p.tasks)
     (h1 : q.running = p.running := by rfl) (h2 : q.cancelledR = p.cancelledR := by rfl)
     (h3 : q.ended = p.ended := by rfl) (h4 : q.lost = p.lost := by rfl)
     (h5 : (flat q.groups).Sublist (flat p.groups) := by exact List.Sublist.refl _)
-    (h6 : q.apis.length = p.apis.length := by rfl) : Tame0 p q := by
-  refine ⟨by rw [hs], by rw [hs], by rw [ht], h1, h2, h3, h4, by rw [hs]; exact fun h => h, h5, ?_, h6⟩
+    (h6 : q.apis = p.apis := by rfl) (h8 : q.gathers = p.gathers := by rfl) : Tame0 p q := by
+  refine ⟨by rw [hs], by rw [hs], by rw [ht], h1, h2, h3, h4, by rw [hs]; exact fun h => h, h5, ?_, by rw [h6],
+    fun h => h.of_soft h8 h6 (by rw [ht]) (fun t tk' h => by rw [ht] at h; exact ⟨tk', h, rfl⟩)⟩
   intro t tk' h; rw [ht] at h; exact ⟨tk', h, rfl⟩
 
 theorem tame0_modReq (p : Pool) (m : Nat) (f : Req → Req) : Tame0 p (p.modReq m f) := tame0_of_eq _ _ rfl rfl
@@ -493,7 +544,8 @@ theorem tame0_modReq (p : Pool) (m : Nat) (f : Req → Req) : Tame0 p (p.modReq 
 /-- an update of a request that moves no map slot -/
 theorem tame_modReq (p : Pool) (m : Nat) (f : Req → Req)
     (hf : ∀ x, MSigLe (f x) x := by intro x; exact ⟨rfl, rfl, rfl, Nat.le_refl _, fun h => h⟩) : Tame p (p.modReq m f) := by
-  refine ⟨⟨rfl, rfl, rfl, rfl, rfl, rfl, rfl, fun h => h, List.Sublist.refl _, fun _ tk' h => ⟨tk', h, rfl⟩, rfl⟩,
+  refine ⟨⟨rfl, rfl, rfl, rfl, rfl, rfl, rfl, fun h => h, List.Sublist.refl _, fun _ tk' h => ⟨tk', h, rfl⟩, rfl,
+    fun h => h.of_soft rfl rfl rfl (fun _ tk' h => ⟨tk', h, rfl⟩)⟩,
     by simp [modReq], ?_⟩
   intro i r' h
   simp only [modReq] at h
@@ -502,9 +554,75 @@ theorem tame_modReq (p : Pool) (m : Nat) (f : Req → Req)
   split
   · exact hf x
   · exact MSigLe.refl x
-theorem tame_modApi (p : Pool) (m f) : Tame p (p.modApi m f) :=
-  tame_of_eq _ _ rfl rfl rfl rfl rfl rfl (List.Sublist.refl _) (by simp [modApi])
-theorem tame_modGather (p : Pool) (m f) : Tame p (p.modGather m f) := tame_of_eq _ _ rfl rfl
+/-- rewriting background call `a` without putting it (back) into its second gather or touching its snapshot -/
+theorem _root_.Taskpool.FlushOK.modApi {p : Pool} (h : FlushOK p) (a : Nat) (f : Api → Api)
+    (hk : ∀ x, (f x).kind = x.kind)
+    (hf : ∀ x, p.apis[a]? = some x → ∀ g, (f x).frame = .gather2 g → x.frame = .gather2 g ∧ (f x).snapC = x.snapC) :
+    FlushOK (p.modApi a f) := by
+  refine ⟨h.gth, ?_⟩
+  intro i A' g hi hfr hkind
+  simp only [Pool.modApi] at hi
+  obtain ⟨x, hx, rfl⟩ := getElem?_modify_some p.apis a i f A' hi
+  by_cases e : a = i
+  · subst e
+    simp only [if_true] at hfr hkind ⊢
+    obtain ⟨h1, h2⟩ := hf x hx g hfr
+    rw [h2]; exact h.api a x g hx h1 (by rw [← hk]; exact hkind)
+  · simp only [e, if_false] at hfr hkind ⊢
+    exact h.api i x g hx hfr hkind
+
+/-- a rewrite of background call `m` that keeps its kind, given what it does to `FlushOK` -/
+theorem tame_modApi_of (p : Pool) (m : Nat) (f : Api → Api) (hk : ∀ x, (f x).kind = x.kind)
+    (hfok : FlushOK p → FlushOK (p.modApi m f)) : Tame p (p.modApi m f) := by
+  refine ⟨⟨rfl, rfl, rfl, rfl, rfl, rfl, rfl, fun h => h, List.Sublist.refl _, fun _ tk' h => ⟨tk', h, rfl⟩, ?_,
+    hfok⟩, Nat.le_refl _, fun _ r' h => Or.inl ⟨r', h, MSigLe.refl r'⟩⟩
+  simp only [modApi]
+  apply List.ext_getElem?
+  intro i
+  simp only [List.getElem?_map, List.getElem?_modify]
+  cases p.apis[i]? with
+  | none => rfl
+  | some x => simp only [Option.map_some]; split <;> simp [hk]
+
+theorem tame_modApi (p : Pool) (m : Nat) (f : Api → Api) (hk : ∀ x, (f x).kind = x.kind := by intro x; rfl)
+    (hf : ∀ x, p.apis[m]? = some x → ∀ g, (f x).frame = .gather2 g → x.frame = .gather2 g ∧ (f x).snapC = x.snapC := by
+      intro x _ g h; first | exact ⟨h, rfl⟩ | cases h) : Tame p (p.modApi m f) :=
+  tame_modApi_of p m f hk (fun h => h.modApi m f hk hf)
+
+/-- rewriting gather `g` without touching its children, completing it normally only when all its child tasks have
+finished -/
+theorem _root_.Taskpool.FlushOK.modGather {p : Pool} (h : FlushOK p) (g : Nat) (f : Gather → Gather)
+    (hc : ∀ G, (f G).children = G.children)
+    (ho : ∀ G, p.gathers[g]? = some G → (f G).outer = some .ok →
+        G.outer = some .ok ∨ ∀ t, Child.task t ∈ G.children → TaskFin p t) :
+    FlushOK (p.modGather g f) := by
+  refine ⟨?_, ?_⟩
+  · intro i G' hi hok t ht
+    simp only [Pool.modGather] at hi
+    obtain ⟨G, hG, rfl⟩ := getElem?_modify_some p.gathers g i f G' hi
+    by_cases e : g = i
+    · subst e
+      simp only [if_true] at hok ht
+      rw [hc] at ht
+      rcases ho G hG hok with h1 | h1
+      · exact h.gth g G hG h1 t ht
+      · exact h1 t ht
+    · simp only [e, if_false] at hok ht
+      exact h.gth i G hG hok t ht
+  · intro a A g' ha hfr hkind
+    obtain ⟨G, hG, hsub⟩ := h.api a A g' ha hfr hkind
+    refine ⟨if g = g' then f G else G, ?_, ?_⟩
+    · simp only [Pool.modGather, List.getElem?_modify, hG]; rfl
+    · split
+      · rw [hc]; exact hsub
+      · exact hsub
+
+theorem tame_modGather (p : Pool) (g : Nat) (f : Gather → Gather) (hc : ∀ G, (f G).children = G.children)
+    (ho : ∀ G, p.gathers[g]? = some G → (f G).outer = some .ok →
+        G.outer = some .ok ∨ ∀ t, Child.task t ∈ G.children → TaskFin p t) : Tame p (p.modGather g f) :=
+  ⟨⟨rfl, rfl, rfl, rfl, rfl, rfl, rfl, fun h => h, List.Sublist.refl _, fun _ tk' h => ⟨tk', h, rfl⟩, rfl,
+    fun h => h.modGather g f hc ho⟩, Nat.le_refl _, fun _ r' h => Or.inl ⟨r', h, MSigLe.refl r'⟩⟩
+
 theorem tame_emitRef (p : Pool) (r) : Tame p (p.emitRef r) := tame_of_eq _ _ rfl rfl
 theorem tame_logEv (p : Pool) (r) : Tame p (p.logEv r) := tame_of_eq _ _ rfl rfl
 
@@ -562,7 +680,8 @@ theorem grantsL_cancelWaiterL (m : Nat) (ws : List Waiter) : grantsL (cancelWait
 theorem tame_cancelPoolWaiter (p : Pool) (m : Nat) :
     Tame p ({ p with sem := { p.sem with waiters := cancelWaiterL m p.sem.waiters } } : Pool) :=
   ⟨⟨rfl, grantsL_cancelWaiterL m _, rfl, rfl, rfl, rfl, rfl, fun h => by simp [h, cancelWaiterL], List.Sublist.refl _,
-   fun _ tk' h => ⟨tk', h, rfl⟩, rfl⟩, Nat.le_refl _, fun _ r' h => Or.inl ⟨r', h, MSigLe.refl r'⟩⟩
+   fun _ tk' h => ⟨tk', h, rfl⟩, rfl, fun h => h.of_soft rfl rfl rfl (fun _ tk' h => ⟨tk', h, rfl⟩)⟩, Nat.le_refl _,
+   fun _ r' h => Or.inl ⟨r', h, MSigLe.refl r'⟩⟩
 
 theorem tame_metaCancel (p : Pool) (m) : Tame p (p.metaCancel m) := by
   unfold metaCancel
